@@ -211,8 +211,12 @@ class ResolveAnchorIds(Transform):
             del refnode["refuri"]
 
             # search explicit first
-            if target in explicit:
-                ref_id, implicit_title = explicit[target]
+            # (explicit names are held in their normalised form: lower case, single spaces)
+            explicit_name = (
+                target if target in explicit else nodes.fully_normalize_name(target)
+            )
+            if explicit_name in explicit:
+                ref_id, implicit_title = explicit[explicit_name]
                 refnode["refid"] = ref_id
                 if not refnode.children and implicit_title:
                     refnode += nodes.inline(
